@@ -88,14 +88,21 @@ def extended(v, i, mode, pad, constant_values=0.0, end_values=0.0):
     raise ValueError("unknown mode %r" % (mode,))
 
 
-def delta_1d(v, scale, mode, **kw):
-    """one regression-filtered copy of the vector v (list of floats)"""
+def delta_1d(v, scale, mode, pad_fn=None, **kw):
+    """one regression-filtered copy of the vector v (list of floats).  pad_fn (instead of a mode name):
+    pad_fn(1-D float64 array, (before, after)) -> the 1-D extended vector, for padding rules that are defined
+    by numpy.pad itself (keyword variants, callables): the rule is then applied to THIS vector alone"""
     off = (len(scale) - 1) // 2
+    ext = None
+    if pad_fn is not None:
+        ext = [float(a) for a in pad_fn(np.array(v, dtype=np.float64), (off, off))]
+        if len(ext) != len(v) + 2 * off or ext[off:off + len(v)] != [float(a) for a in v]:
+            raise ValueError("pad_fn did not extend the vector by (%d, %d)" % (off, off))
     out = []
     for t in range(len(v)):
         s = 0.0
         for j in range(-off, off + 1):
-            s += scale[j + off] * extended(v, t + j, mode, off, **kw)
+            s += scale[j + off] * (ext[t + j + off] if ext is not None else extended(v, t + j, mode, off, **kw))
         out.append(s)
     return out
 
@@ -104,7 +111,7 @@ def _other_indices(shape, axis):
     return itertools.product(*[range(n) if a != axis else (None,) for a, n in enumerate(shape)])
 
 
-def delta_orders(x, max_order, window, axis, mode, **kw):
+def delta_orders(x, max_order, window, axis, mode, pad_fn=None, **kw):
     """[x, delta x, delta delta x, ...] as float64 arrays of x's shape, filtered along axis"""
     x = np.asarray(x)
     axis = axis % x.ndim
@@ -117,7 +124,7 @@ def delta_orders(x, max_order, window, axis, mode, **kw):
             full = tuple(t if a == axis else idx[a] for a in range(x.ndim))
             v.append(float(x[full]))
         for d in range(max_order + 1):
-            w = v if d == 0 else delta_1d(v, scales[d], mode, **kw)
+            w = v if d == 0 else delta_1d(v, scales[d], mode, pad_fn=pad_fn, **kw)
             for t in range(n):
                 full = tuple(t if a == axis else idx[a] for a in range(x.ndim))
                 outs[d][full] = w[t]
@@ -168,7 +175,10 @@ def deltas_apply(x, num_deltas, window, axis, target_axis, concatenate, mode, **
 # ------------------------------------------------------------------ Stack
 
 
-def stack_apply(x, num_vectors, time_axis, axis, pad_mode=None, constant_values=0):
+def stack_apply(x, num_vectors, time_axis, axis, pad_mode=None, constant_values=0, pad_fn=None):
+    """pad_fn (with pad_mode "fn"): pad_fn(1-D array of x's dtype: ONE whole vector along the time axis,
+    (0, missing)) -> that vector extended on the right to the next multiple of num_vectors - the padding rule
+    sees the whole time axis, never the incomplete run alone"""
     x = np.asarray(x)
     ta, fa = time_axis % x.ndim, axis % x.ndim
     if ta == fa:
@@ -183,6 +193,19 @@ def stack_apply(x, num_vectors, time_axis, axis, pad_mode=None, constant_values=
     out = np.zeros(shape, dtype=x.dtype)
     others = [a for a in range(x.ndim) if a not in (ta, fa)]
     for rest in itertools.product(*[range(x.shape[a]) for a in others]):
+        whole = {}
+        if pad_mode == "fn" and nT * num_vectors > T:
+            for f in range(F):
+                src = [0] * x.ndim
+                for a, i in zip(others, rest):
+                    src[a] = i
+                src[fa], src[ta] = f, slice(None)
+                vec = np.array(x[tuple(src)])
+                ext = np.asarray(pad_fn(np.array(vec), (0, nT * num_vectors - T)))
+                if ext.shape != (nT * num_vectors,) or ext.dtype != x.dtype or \
+                        ext[:T].tobytes() != vec.tobytes():
+                    raise ValueError("pad_fn did not extend the vector on the right")
+                whole[f] = ext
         for r in range(nT):
             for v in range(num_vectors):
                 t = r * num_vectors + v
@@ -196,6 +219,8 @@ def stack_apply(x, num_vectors, time_axis, axis, pad_mode=None, constant_values=
                     if t < T:
                         src[ta] = t
                         val = x[tuple(src)]
+                    elif pad_mode == "fn":
+                        val = whole[f][t]
                     elif pad_mode == "edge":
                         src[ta] = T - 1
                         val = x[tuple(src)]
@@ -321,6 +346,24 @@ def selftest():
     assert stack_apply(b2[:2], 3, 0, 1).shape == (0, 9)
     assert np.array_equal(stack_apply(b2[:2], 3, 0, 1, "constant", 7),
                           [[0, 1, 2, 3, 4, 5, 7, 7, 7]])
+    # pad_fn: the rule sees one whole vector; against the explicit extension rules above
+    b3 = np.arange(30.0).reshape(5, 3, 2) ** 2 % 17
+    for mode in ("edge", "reflect", "symmetric", "wrap", "mean", "maximum", "minimum"):
+        for nv in (2, 3, 4):
+            got = stack_apply(b3, nv, 0, 1, "fn", pad_fn=lambda v, w, m=mode: np.pad(v, w, m))
+            k = -(-5 // nv) * nv - 5
+            for f in range(3):
+                for c in range(2):
+                    vec = [float(a) for a in b3[:, f, c]]
+                    for t in range(5, 5 + k):
+                        assert np.isclose(got[t // nv, (t % nv) * 3 + f, c],
+                                          extended(vec, t, mode, k)), (mode, nv, f, c, t)
+    v = [0.5, -1.0, 4.0, 2.5, 2.0]
+    sc = delta_scales(2, 2)
+    for mode in ("edge", "reflect", "wrap", "mean"):
+        for d in (1, 2):
+            assert np.allclose(delta_1d(v, sc[d], mode),
+                               delta_1d(v, sc[d], None, pad_fn=lambda a, w, m=mode: np.pad(a, w, m)))
     # mean / variance / standardisation
     vs = [[1.0, -2.0], [3.0, -8.0], [8.0, 1.0]]
     m, var = mean_var(vs)
